@@ -20,19 +20,24 @@ Faults == {"badlog", "addr-syntax", "addr-inuse", "addr-unassignable", "cache-da
            "ctrli-missing", "icanhazip"}
 Flags == {"none", "-h", "-print-default-template", "-print-ctrl-i"}
 Exits == {"ctrl-c", "ctrl-d"}
+\* what is going on when the operator ends a healthy run: nothing, one stream attached, a whole
+\* shell, a shell with output muted, half a line typed
+ServeStates == {"idle", "half", "shell", "muted", "typed"}
 
 VARIABLES
+  sst,       \* state of the healthy run when it is ended (only varied for fault-free configurations)
   faults, flag, tty, how,   \* the configuration (fixed per behaviour); how = the way the operator ends a healthy run
   pc,        \* current step, or "exited"
   raw,       \* the terminal is in raw mode
   status,    \* exit status class: none | zero | nonzero | crash
   cause,     \* fault named in the final message ("" = none, "info" = informational output)
   act
-vars == <<faults, flag, tty, how, pc, raw, status, cause, act>>
+vars == <<sst, faults, flag, tty, how, pc, raw, status, cause, act>>
 
 Init ==
   /\ faults \in {F \in SUBSET Faults : Cardinality(F) <= 2}
   /\ flag \in Flags /\ tty \in BOOLEAN /\ how \in Exits
+  /\ sst \in (IF faults = {} /\ flag = "none" /\ tty THEN ServeStates ELSE {"idle"})
   /\ pc = "flags" /\ raw = FALSE /\ status = "none" /\ cause = "" /\ act = "start"
 
 Exit(st, c) == pc' = "exited" /\ status' = st /\ cause' = c /\ raw' = FALSE   \* every exit path restores the terminal
@@ -40,7 +45,7 @@ Goto(p) == pc' = p /\ UNCHANGED <<raw, status, cause>>
 
 Step ==
   /\ pc # "exited"
-  /\ UNCHANGED <<faults, flag, tty, how>>
+  /\ UNCHANGED <<sst, faults, flag, tty, how>>
   /\ act' = pc
   /\ CASE pc = "flags"    -> IF flag = "-h" THEN Exit("zero", "info") ELSE Goto("template")
        [] pc = "template" -> IF flag = "-print-default-template" THEN Exit("zero", "info") ELSE Goto("log")
@@ -79,6 +84,6 @@ Allowed ==
     runs  |-> flag = "none" /\ Applicable = {} ]
 
 EmitCase == \/ ~Emit
-            \/ (pc = "exited") => PrintT(<<"CASE", ToJson([faults |-> faults, flag |-> flag, tty |-> tty, how |-> how,
+            \/ (pc = "exited") => PrintT(<<"CASE", ToJson([faults |-> faults, flag |-> flag, tty |-> tty, how |-> how, sst |-> sst,
                                                            status |-> status, cause |-> cause, allowed |-> Allowed])>>)
 =============================================================================
